@@ -21,7 +21,7 @@ ASSUMPTIONS = ['perturbations keep a factor-2 margin from the allclose threshold
 
 
 def plan(tier, seed):
-    return dict(n=1600 if tier == 'quick' else 600000, budget_s=70 if tier == 'quick' else 840, case_timeout=60)
+    return dict(n=4000 if tier == 'quick' else 600000, budget_s=70 if tier == 'quick' else 840, case_timeout=60)
 
 
 def support(ps):
